@@ -12,7 +12,7 @@ Prefix == S("example.com/m@v1.0.0/")
 PathsCore == <<S("a"), S("A"), S("b.go"), S("go.mod"), S("GO.MOD"), S("sub/go.mod"), S("sub/a.go"), S("vendor/p/x.go"), S("vendor/modules.txt"),
                S("pkg/vendor/vendor.go"), S("pkg/vendor/p/x.go"), S("dir/f"), S("dirx/f"), S("DIR/g"), S("testdata/example.com/m@v1.0.0/m.go"), S("logo.mod"), S("x/a.go.mod"), S("dir/LICENSE"), S(".git"), S("testdata/.hg/hgrc"), S("b.go/c"), S("LICENSE"), S("a//b"), S("/abs"), S("con"), <<233>>, <<201>>,
                \* a file two levels below a nested module; names with a tab, a carriage return at the end, DEL
-               S("sub/sub2/b.go"), S("vendor/p/vendor/q.go"), S("pkg/vendor/a/vendor/b.go"), S("pkg/vendor/a/vendor/modules.txt"), <<97, 9, 98>>, <<73, 99, 111, 110, 13>>, <<97, 127>>,
+               S("sub/sub2/b.go"), S("docs/aux.tar.gz"), S("vendor/p/vendor/q.go"), S("pkg/vendor/a/vendor/b.go"), S("pkg/vendor/a/vendor/modules.txt"), <<97, 9, 98>>, <<73, 99, 111, 110, 13>>, <<97, 127>>,
                \* digits that are not ASCII (Arabic-Indic three, full-width two): not letters, so not allowed
                <<100, 1635>>, <<118, 65298, 47, 100>>>>
 PathsMore == <<S("Go.Mod"), S("sub/GO.MOD"), S("Sub/x"), S("vendor/x.go"), <<8490>>, S("k"), <<383>>, S("s"), S("aux.txt"), S("a~1"), S("a b"), S("."), S(".."), S("../a"),
